@@ -136,7 +136,7 @@ let parse_smsg ws =
 let do_rmsg ws =
   let (args, oracle) = split_at_semi [] ws in
   let rest = match args with
-    | "T" :: _ :: _ :: _ :: rest -> rest
+    | ("T" | "U") :: _ :: _ :: _ :: rest -> rest
     | "D" :: _ :: _ :: _ :: _ :: rest -> rest
     | _ -> failwith "RMSG ref" in
   match rest with
